@@ -23,11 +23,15 @@ type GenOpts struct {
 	Failures   bool // scripts include recoverable exec failures (retries / fallbacks)
 	Zoo        bool // payloads from the value zoo
 	MaxVisits  int
+	Batch      bool // some nodes are (sequential) batch nodes
 }
 
 // GenNode draws a scripted node spec.
 func GenNode(r *rand.Rand, o GenOpts, nActions int) NodeSpec {
 	k := r.IntN(NumScriptedKinds)
+	if o.Batch && r.IntN(7) == 0 {
+		k = KBatch
+	}
 	n := 1 + r.IntN(4)
 	if r.IntN(4) == 0 {
 		n = 1
@@ -152,6 +156,42 @@ func GenFlowScenario(r *rand.Rand, o GenOpts) *Scenario {
 		sc.FreshStore = r.IntN(2) == 0
 	}
 	sc.UseFlowRun = r.IntN(3) == 0
+	if sc.Runs > 1 && r.IntN(2) == 0 {
+		// Connect calls between runs: overwrite an existing pair, add a new action to a node that already
+		// has connections, re-connect to nil
+		var flows []int
+		for id := range sc.Nodes {
+			if sc.Nodes[id].Kind == KFlow {
+				flows = append(flows, id)
+			}
+		}
+		nrw := 1 + r.IntN(3)
+		for i := 0; i < nrw; i++ {
+			fid := flows[r.IntN(len(flows))]
+			if r.IntN(2) == 0 {
+				fid = sc.Root
+			}
+			fs := sc.Nodes[fid].Flow
+			members := []int{fs.Start}
+			for _, c := range fs.Conns {
+				members = append(members, c.From)
+				if c.To >= 0 {
+					members = append(members, c.To)
+				}
+			}
+			from := members[r.IntN(len(members))]
+			to := members[r.IntN(len(members))]
+			if r.IntN(5) == 0 {
+				to = -1
+			}
+			act := Alphabet[r.IntN(nActions)]
+			if len(fs.Conns) > 0 && r.IntN(2) == 0 { // overwrite an existing pair
+				c := fs.Conns[r.IntN(len(fs.Conns))]
+				from, act = c.From, c.Action
+			}
+			sc.Rewire = append(sc.Rewire, Rewire{AfterRun: r.IntN(sc.Runs - 1), Flow: fid, Conn: Conn{from, act, to}})
+		}
+	}
 	return sc
 }
 
